@@ -23,8 +23,8 @@ func init() {
 }
 
 func runC08(p *core.Prog, r *core.Report) {
-	c08R1(p, r)
-	c08R2(p, r)
+	c08R1(p, r, "C08.R1")
+	c08R2(p, r, "C08.R2")
 	c08R3(p, r)
 	c08R4(p, r)
 	c08R5(p, r)
@@ -34,8 +34,7 @@ func isInvoke(c ssa.CallInstruction, method string) bool {
 	return c.Common().IsInvoke() && c.Common().Method.Name() == method
 }
 
-func c08R1(p *core.Prog, r *core.Report) {
-	const rule = "C08.R1"
+func c08R1(p *core.Prog, r *core.Report, rule string) {
 	r.Rule(rule, "GC lock pairing around the whole copy: GCLock is followed on every path by `defer GCUnlock` of the same locker and ref before a return; the traversal is reachable only past the lock (or the not-a-GCLocker edge)", 2)
 	trav := copyTraversal(p)
 	if trav == nil {
@@ -172,9 +171,8 @@ func findGCFields(p *core.Prog) *gcFields {
 	return g
 }
 
-func c08R2(p *core.Prog, r *core.Report) {
-	const rule = "C08.R2"
-	r.Rule(rule, "sweep guard: every removal reachable in Close is dominated by the 'modified' and 'not locked' edges and runs with the layout mutex held; bookkeeping entries are dropped only behind the not-locked edge; the bookkeeping is touched only under the mutex", 5)
+func c08R2(p *core.Prog, r *core.Report, rule string) {
+	r.Rule(rule, "sweep guard: every removal reachable in Close is dominated by the 'modified' and 'not locked' edges and runs with the layout mutex held; bookkeeping entries are dropped only behind the not-locked edge and never overwritten; the bookkeeping is touched only under the mutex", 3)
 	g := findGCFields(p)
 	closeFn := p.Method(ocidirRel, "OCIDir", "Close")
 	if g == nil || closeFn == nil {
@@ -255,6 +253,62 @@ func c08R2(p *core.Prog, r *core.Report) {
 				"a bookkeeping entry may only be dropped where the lock count is known to be zero; dropping it under a running copy loses that copy's GC lock")
 		})
 	}
+	// an existing entry is never overwritten: a whole-entry store is on the miss (or nil) edge of a
+	// lookup in the same map, or stores back the looked-up entry
+	var fromLookup func(v ssa.Value, d int) bool
+	fromLookup = func(v ssa.Value, d int) bool {
+		if v == nil || d > 8 {
+			return false
+		}
+		switch x := v.(type) {
+		case *ssa.Lookup:
+			return fieldLoadSame(x.X, g.mapOwner, g.mapF)
+		case *ssa.Extract:
+			return fromLookup(x.Tuple, d+1)
+		case *ssa.BinOp:
+			return fromLookup(x.X, d+1) || fromLookup(x.Y, d+1)
+		case *ssa.UnOp:
+			if x.Op == token.MUL {
+				if al, ok := x.X.(*ssa.Alloc); ok {
+					for _, st := range core.StoresToCell(al) {
+						if fromLookup(st.Val, d+1) {
+							return true
+						}
+					}
+					return false
+				}
+			}
+			return fromLookup(x.X, d+1)
+		case *ssa.Phi:
+			for _, e := range x.Edges {
+				if fromLookup(e, d+1) {
+					return true
+				}
+			}
+		}
+		return false
+	}
+	for _, fn := range pkgFuncs(p, ocidirRel) {
+		lab := labeler{}
+		for _, b := range fn.Blocks {
+			for _, in := range b.Instrs {
+				mu, ok := in.(*ssa.MapUpdate)
+				if !ok || !fieldLoadSame(mu.Map, g.mapOwner, g.mapF) {
+					continue
+				}
+				okStore := fromLookup(mu.Value, 0)
+				if !okStore {
+					for _, cd := range core.ControlDeps(mu) {
+						if fromLookup(cd.Cond, 0) {
+							okStore = true
+						}
+					}
+				}
+				r.Check(okStore, rule, p.FuncName(fn), lab.next("store into "+g.mapF), p.Pos(mu.Pos()),
+					"a fresh entry is stored only where a lookup in the same map found none (or the looked-up entry itself is stored back); overwriting an existing entry resets the lock count a running copy holds")
+			}
+		}
+	}
 	// lock count writes: only ±1 in the two lock methods
 	for _, fs := range fieldStores(pkgFuncs(p, ocidirRel), func(n *types.Named, f string) bool { return n == g.st && f == g.lockF }) {
 		fname := p.FuncName(fs.Fn)
@@ -292,10 +346,10 @@ func c08R3(p *core.Prog, r *core.Report) {
 		w := false
 		core.Calls(fn, func(c ssa.CallInstruction) {
 			cal := core.Callee(c)
-			if cal != nil && (isOS(cal, "Rename") || isOS(cal, "Remove")) {
+			if isFSMutator(cal) {
 				w = true
 			}
-			if gfn := core.CalleeFn(c); gfn != nil && gfn.Name() == "writeIndex" {
+			if gfn := core.CalleeFn(c); gfn != nil && (gfn.Name() == "writeIndex" || gfn.Name() == "updateIndex") {
 				w = true
 			}
 		})
@@ -303,7 +357,7 @@ func c08R3(p *core.Prog, r *core.Report) {
 	}
 	for _, st := range p.Callers(g.marker) {
 		fname := p.FuncName(st.From)
-		r.Check(writes(st.From), rule, fname, "marks the layout modified", p.Pos(st.Site.Pos()), "a function that marks the layout dirty must itself rename/remove a file or rewrite the index (read-only operations must not enable the sweep)")
+		r.Check(writes(st.From), rule, fname, "marks the layout modified", p.Pos(st.Site.Pos()), "a function that marks the layout dirty must itself change a file of the layout or rewrite the index (read-only operations must not enable the sweep)")
 	}
 }
 
